@@ -136,9 +136,11 @@ func (fr *Frame) call(site ssa.Instruction, c *ssa.CallCommon, reach T, st *Stat
 	}
 	_ = recvNames
 	// a closure handed to a callee that is not inlined may run any number of times: everything it can assign is havoced
-	for _, a := range c.Args {
-		if mc, ok := a.(*ssa.MakeClosure); ok {
-			fr.havocClosureEffects(site, mc, reach, st)
+	if hc := fr.lookupContract(c); hc == nil || hc.Invokes == nil {
+		for _, a := range c.Args {
+			if mc, ok := a.(*ssa.MakeClosure); ok {
+				fr.havocClosureEffects(site, mc, reach, st)
+			}
 		}
 	}
 	key := calleeKey(c)
@@ -264,9 +266,54 @@ func (fr *Frame) applyContract(site ssa.Instruction, fc *FuncContract, key strin
 			res = append(res, r)
 		}
 	}
+	var invoked T
+	if fc.Invokes != nil {
+		// find the closure argument
+		var ci *closureInfo
+		pi := 0
+		for i := 0; i < sig.Params().Len(); i++ {
+			if sig.Params().At(i).Name() == fc.Invokes.Param {
+				pi = i
+				if sig.Recv() != nil && !c.IsInvoke() {
+					pi = i + 1
+				}
+				if pi < len(c.Args) {
+					ci = fr.findClosure(c.Args[pi])
+					if ci == nil {
+						if mc, ok := c.Args[pi].(*ssa.MakeClosure); ok {
+							ci = &closureInfo{fn: mc.Fn.(*ssa.Function), bindings: mc.Bindings, frame: fr}
+						}
+					}
+				}
+			}
+		}
+		if ci == nil {
+			panic(engineErr("needs-subset", "%s: `invokes %s` needs a function literal as argument at %s", shortKey(key), fc.Invokes.Param, ex.pos(instrPos(site))))
+		}
+		invoked = ex.fresh("invoked", "Bool")
+		arg := ex.freshOfType("inv_"+fc.Invokes.Arg, ci.fn.Params[0].Type(), tTrue, nil)
+		aenv := &Env{ex: ex, fr: fr, cur: st, old: pre, vars: map[string]Val{fc.Invokes.Arg: {t: arg, typ: ci.fn.Params[0].Type()}}, pkgPath: fc.PkgPath, callerPkg: ex.pkg}
+		for k, v := range bind {
+			aenv.vars[k] = v
+		}
+		ex.assume(tTrue, aenv.evalBool(fc.Invokes.Clause))
+		st2 := st.clone()
+		g := ex.define("invoked_reach", and(reach, invoked))
+		r2 := fr.inlineWith(site, ci, nil, []T{arg}, g, st2)
+		merged := ex.mergeStates([]T{invoked, not(invoked)}, []*State{st2, st})
+		st.m = merged.m
+		for i := range res {
+			if i < len(r2) {
+				res[i] = ex.define("hof_r", ite(invoked, r2[i], res[i]))
+			}
+		}
+	}
 	post := &Env{ex: ex, fr: fr, cur: st, old: pre, vars: map[string]Val{}, pkgPath: fc.PkgPath, callerPkg: ex.pkg}
 	for k, v := range bind {
 		post.vars[k] = v
+	}
+	if fc.Invokes != nil {
+		post.vars["invoked"] = Val{t: invoked, typ: types.Typ[types.Bool]}
 	}
 	for i, r := range res {
 		v := Val{t: r, typ: sig.Results().At(i).Type()}
@@ -401,10 +448,21 @@ func relPath(p string) string {
 
 // inline executes a closure body in place.
 func (fr *Frame) inline(site ssa.Instruction, ci *closureInfo, argVals []ssa.Value, reach T, st *State) []T {
+	return fr.inlineWith(site, ci, argVals, nil, reach, st)
+}
+
+// inlineWith: argTerms (when non-nil) are used for the parameters instead of SSA values.
+func (fr *Frame) inlineWith(site ssa.Instruction, ci *closureInfo, argVals []ssa.Value, argTerms []T, reach T, st *State) []T {
 	ex := fr.ex
 	sub := ex.newFrame(ci.fn, fr)
 	sub.entry = fr.entry
 	for i, p := range ci.fn.Params {
+		if argTerms != nil {
+			if i < len(argTerms) {
+				sub.vals[p] = argTerms[i]
+			}
+			continue
+		}
 		if i < len(argVals) {
 			if lv, ok := fr.lvals[argVals[i]]; ok && lv.kind == "comp" {
 				sub.lvals[p] = lv
